@@ -22,6 +22,13 @@ func init() {
 		Rule: "one run = one seeded schedule+fault sequence over a swarm-drawn cluster config (1-5 hosts, 3 SM kinds, PreVote/CheckQuorum/Quiesce/NotifyCommit, snapshot and compaction settings, fault menu and rates); non-trivial = at least 3 user entries applied and 2 client ops completed; distinct = distinct signature (set of abstract cluster states visited, applied count, history length)",
 		Run:  simhost.Run,
 	})
+	runner.RegisterScenario(&runner.Scenario{
+		Name: "simhost/import",
+		Real: []string{"everything of simhost", "tools.ImportSnapshot", "exported snapshots (RequestSnapshot Exported)", "log store ImportSnapshot", "restart path of imported replicas"},
+		Stub: []string{"as simhost", "copying the export directory between hosts is done by the harness"},
+		Rule: "one run = seeded history, export at a random point, more history, loss of all hosts, import with a tape-chosen member list (subset of old members / fresh hosts / single member; invalid lists; damaged export directory), restart, workload; non-trivial = the export completed and at least one ImportSnapshot call was made; distinct = signature of (member list shape, fault kind, abstract states)",
+		Run:  simhost.RunImport,
+	})
 	sh := func(prop string, quick, thorough int, parts ...runner.Part) {
 		runner.RegisterCheck(&runner.Check{Property: prop, Level: "exploration", QuickBudgetS: quick, ThoroughS: thorough, Parts: parts,
 			Assumptions: []string{
@@ -40,14 +47,21 @@ func init() {
 		runner.Part{Scenario: "simhost", Params: p("pcrash", "6", "fsyield", "50"), Share: 1})
 	sh("C05", 90, 1200, runner.Part{Scenario: "simhost", Params: p("sessions", "1", "sm", "1", "timeout", "30", "pdrop", "80", "pdup", "30", "ops", "40"), Share: 2},
 		runner.Part{Scenario: "simhost", Params: p("sessions", "1", "sm", "2", "lru", "2", "clients", "4", "snapshot", "5", "pcrash", "6"), Share: 2},
-		runner.Part{Scenario: "simhost", Params: p("sessions", "1", "lru", "3", "clients", "4", "ptransfer", "8", "ppartition", "8"), Share: 1})
+		runner.Part{Scenario: "simhost", Params: p("sessions", "1", "lru", "3", "clients", "4", "ptransfer", "8", "ppartition", "8"), Share: 1},
+		runner.Part{Scenario: "l0/rsmtwin", Params: p("focus", "sessions"), Share: 2},
+		runner.Part{Scenario: "l0/rsmtwin", Params: p("focus", "sessions", "nohash", "1"), Share: 1})
 	sh("C06", 90, 1200, runner.Part{Scenario: "simhost", Params: p("readmix", "70", "ppartition", "10", "pdup", "30", "preorder", "40", "ptransfer", "8"), Share: 2},
 		runner.Part{Scenario: "simhost", Params: p("readmix", "60", "pmember", "10", "pcrash", "5"), Share: 1})
 	sh("C07", 90, 1200, runner.Part{Scenario: "simhost", Params: p("pmember", "20", "hosts", "4"), Share: 2},
-		runner.Part{Scenario: "simhost", Params: p("pmember", "12", "hosts", "5", "pcrash", "6"), Share: 1})
+		runner.Part{Scenario: "simhost", Params: p("pmember", "12", "hosts", "5", "pcrash", "6"), Share: 1},
+		runner.Part{Scenario: "l0/rsmtwin", Params: p("focus", "membership"), Share: 1})
 	sh("C08", 90, 1200, runner.Part{Scenario: "simhost", Params: p("snapshot", "5", "overhead", "0", "pcrash", "6", "ppartition", "8", "ops", "40"), Share: 2},
 		runner.Part{Scenario: "simhost", Params: p("snapshot", "12", "overhead", "2", "psnapreq", "10", "pstop", "4", "compress", "1"), Share: 1},
-		runner.Part{Scenario: "simhost", Params: p("snapshot", "5", "sm", "3", "pcrash", "8", "pmember", "6", "hosts", "4"), Share: 1})
+		runner.Part{Scenario: "simhost", Params: p("snapshot", "5", "sm", "3", "pcrash", "8", "pmember", "6", "hosts", "4"), Share: 1},
+		runner.Part{Scenario: "l0/rsmtwin", Params: p("focus", "snapshot"), Share: 2},
+		runner.Part{Scenario: "l0/rsmtwin", Params: p("focus", "snapshot", "enum", "1"), Share: 1, MaxRuns: 1200})
+	sh("C20", 90, 1200, runner.Part{Scenario: "simhost/import", Params: p("pmember", "0"), Share: 2},
+		runner.Part{Scenario: "simhost/import", Params: p("pmember", "12", "hosts", "5"), Share: 2})
 	sh("C11", 90, 1200, runner.Part{Scenario: "simhost", Params: p("smyield", "500", "pstop", "6", "psnapreq", "10"), Share: 2},
 		runner.Part{Scenario: "simhost", Params: p("smyield", "300", "pcrash", "6"), Share: 1})
 	sh("C12", 90, 1200, runner.Part{Scenario: "simhost", Params: p("pstop", "4", "timeout", "30"), Share: 2},
